@@ -17,5 +17,5 @@ class Match(FilterFunction):
         try:
             # re.fullmatch caches compiled patterns internally
             return bool(re.fullmatch(pattern, string))
-        except (TypeError, re.error):
+        except (TypeError, ValueError, OverflowError, re.error):
             return False
